@@ -1,29 +1,64 @@
 (* C18 — the timezone reader returns the UTC offset the TZif data defines per instant.
-   Specification: TzSpec.spec_lookup (latest transition at or before t; after the last one the footer rule, with
-   rule dates Jn / n / Mm.w.d defined from the calendar).
-   PROVED here, for all inputs: the table scan is "type of the latest transition <= t" on sorted tables; the rule
-   dates Jn (29 February never counted: J60 = 1 March in every year) and n computed by the code are those of the
-   specification.
-   NOT PROVED here (checked by the differential run against TzSpec on synthesized files and against CPython's
-   zoneinfo on real files): the Mm.w.d date computed through weekdays_in_month, the composition of the four-way
-   comparison with TzSpec.rule_offset, and the byte-level decoding.  Named *_partial for that reason. *)
-From Astro Require Import Base Text CalSpec DateModel TimeModel ApiModel InstantSpec DateProofs TzModel TzSpec TzProofs.
+   Specification: TzSpec.spec_lookup on the file's content (transitions, local time types, footer rule): the type of
+   the latest transition at or before t; after the last transition the footer rule, with rule dates Jn / n / Mm.w.d
+   defined from the calendar (29 February never counted by Jn; "w-th / last weekday d of month m"), the daylight period
+   starting in standard wall time and ending in daylight wall time, in the UTC year of t.
+   PROVED here, for every parsed structure tz with sorted transitions that satisfies the reader's own validation (tz_wf,
+   established for every accepted file by C19_parse_wf), every timestamp inside the DateTime range and every UTC year
+   strictly inside the range (the first and last year are clamped by the code):
+   to_local_time_type tz t is exactly the specification's offset (C18_lookup_partial), together with its ingredients: the
+   table scan, the three kinds of rule dates, the local timestamp of a switch-over.
+   NOT PROVED here (checked by the differential run against TzSpec on synthesized files and against CPython's zoneinfo on
+   real files): the byte-level decoding, i.e. that from_tzif of an encoded file yields the structure the file describes
+   (header and data-block arithmetic, big-endian integers, the POSIX TZ string grammar).  Named *_partial for that reason. *)
+From Astro Require Import Base Text CalSpec DateModel TimeModel ApiModel InstantSpec TzModel TzSpec DateProofs TzProofs.
 
-Theorem C18_scan_partial : forall l t, sorted_trans l -> scan_rev (rev l) t = latest_type l t 0.
+Theorem C18_lookup_partial : forall tz t, tz_wf tz -> sorted_trans (tz_trans tz) -> ts_in_range t ->
+  MIN_Y + 1 <= utc_year year_of t <= MAX_Y - 1 ->
+  exists u, spec_lookup year_of (spec_file tz) t = Some u /\ to_local_time_type tz t = TzOk u.
+Proof. exact lookup_is_spec. Qed.
+
+Theorem C18_scan : forall l t, sorted_trans l -> scan_rev (rev l) t = latest_type l t 0.
 Proof. exact scan_is_latest. Qed.
-Theorem C18_rule_date_J_partial : forall Y n, MIN_Y < Y < MAX_Y -> Y <> 0 -> 1 <= n <= 365 ->
+Theorem C18_rule_date_J : forall Y n, MIN_Y < Y < MAX_Y -> Y <> 0 -> 1 <= n <= 365 ->
   year_doy_to_days Y n true = Ok (rule_date Y (SJ n)).
 Proof. exact rule_date_J. Qed.
-Theorem C18_rule_date_N_partial : forall Y n, MIN_Y < Y < MAX_Y -> Y <> 0 -> 0 <= n <= 365 ->
+Theorem C18_rule_date_N : forall Y n, MIN_Y < Y < MAX_Y -> Y <> 0 -> 0 <= n <= 365 ->
   (let! j := unwrap_days (year_doy_to_days Y 1 false) in TzOk (j + n)) = TzOk (rule_date Y (SN n)).
 Proof. exact rule_date_N. Qed.
+Theorem C18_rule_date_M : forall Y m w wd, MIN_Y < Y < MAX_Y -> Y <> 0 -> 1 <= m <= 12 -> 1 <= w <= 5 -> 0 <= wd <= 6 ->
+  (let! wds := weekdays_in_month Y m wd in
+   let! dom := (if w =? 5 then match rev wds with x :: _ => TzOk x | [] => TzPanic end
+                else match nth_error wds (Z.to_nat (w - 1)) with Some x => TzOk x | None => TzPanic end) in
+   match year_month_to_doy Y m with
+   | Ok (start, _) => unwrap_days (year_doy_to_days Y (start + dom) false)
+   | _ => TzPanic end) = TzOk (rule_date Y (SM m w wd)).
+Proof. exact rule_date_M. Qed.
+(* the Unix-epoch-based local timestamp of a switch-over in the rule year *)
+Theorem C18_rule_timestamp : forall rdy time t Y, rule_day_ok rdy -> time_ok time -> rule_year t = TzOk Y -> MIN_Y < Y < MAX_Y -> Y <> 0 ->
+  rule_to_local_timestamp rdy time t = TzOk ((rule_date Y (spec_day rdy) - UNIX_EPOCH_DAY) * 86400 + time).
+Proof. exact rule_ts_spec. Qed.
+Theorem C18_rule_year : forall t, ts_in_range t ->
+  rule_year t = TzOk (Z.max (MIN_Y + 1) (Z.min (MAX_Y - 1) (utc_year year_of t))).
+Proof. exact rule_year_is. Qed.
 
 Example C18_examples :
   rule_date 2024 (SJ 60) = rd (2024, 3, 1) /\ rule_date 2023 (SJ 60) = rd (2023, 3, 1) /\
   rule_date 2024 (SM 3 5 0) = rd (2024, 3, 31) /\ rule_date 2024 (SM 10 5 0) = rd (2024, 10, 27) /\
   rule_date 2024 (SM 11 1 0) = rd (2024, 11, 3).
-Proof. repeat split; reflexivity. Qed.
+Proof. repeat split; vm_compute; reflexivity. Qed.
+(* Europe/Berlin-like structure: CET-1CEST,M3.5.0,M10.5.0/3 after a last transition in 1996; 2024-07-01T00:00Z is daylight time, 2024-12-01 standard *)
+Example C18_lookup_example :
+  let tz := mkTz [(828234000, 1); (846378000, 0)] [3600; 7200]
+                 (Some (RAlt (mkAlt 3600 (MonthWeekDay 3 5 0) 7200 7200 (MonthWeekDay 10 5 0) 10800))) in
+  to_local_time_type tz 1719792000 = TzOk 7200 /\ to_local_time_type tz 1733011200 = TzOk 3600 /\
+  spec_lookup year_of (spec_file tz) 1719792000 = Some 7200 /\ to_local_time_type tz 830000000 = TzOk 7200.
+Proof. cbv zeta. repeat split; vm_compute; reflexivity. Qed.
 
-Print Assumptions C18_scan_partial.
-Print Assumptions C18_rule_date_J_partial.
-Print Assumptions C18_rule_date_N_partial.
+Print Assumptions C18_lookup_partial.
+Print Assumptions C18_scan.
+Print Assumptions C18_rule_date_J.
+Print Assumptions C18_rule_date_N.
+Print Assumptions C18_rule_date_M.
+Print Assumptions C18_rule_timestamp.
+Print Assumptions C18_rule_year.
